@@ -527,6 +527,7 @@ def _sorted_perm(xs, descending):
             if isinstance(x, builtins_int) and isinstance(y, builtins_int):
                 before = x > y if descending else x < y
             else:
+                _core._no_tie(x, y)
                 before = builtins_bool(_to_real(x) > _to_real(y)) if descending else builtins_bool(_to_real(x) < _to_real(y))
             if before:
                 k -= 1
@@ -597,6 +598,19 @@ def _network_sort(xs, descending):
     return xs
 
 
+def _axiom_sort(xs, descending):
+    """sorted values as FRESH variables y constrained by: y sorted, and y is a permutation of xs
+    (a disjunction over the n! arrangements - the case split is left to the SAT core instead of path forking)."""
+    import itertools as _it
+    n = len(xs)
+    ys = [_symx.fresh("srt") for _ in range(n)]
+    sp = _symx.space()
+    for i in range(n - 1):
+        sp.assume(((ys[i] >= ys[i + 1]) if descending else (ys[i] <= ys[i + 1])).z())
+    sp.assume(_z3.Or(*[_z3.And(*[ys[i].eqz(xs[p[i]]) for i in range(n)]) for p in _it.permutations(range(n))]))
+    return ys
+
+
 def _symbolic_reals(xs):
     return builtins_all(isinstance(x, _R) for x in xs) and builtins_any(not x.conc for x in xs)
 
@@ -609,9 +623,12 @@ def _sort_impl(t, dim, descending, k=None):
         p = _sorted_perm(xs, descending)[:k]
         return [xs[i] for i in p], p
     fl = t._flat()
-    if t.kind == "real" and _symbolic_reals(fl):
+    if t.kind == "real" and _symbolic_reals(fl) and KERNELS.get("sort_mode") != "fork":
         def f_net(xs):
-            v = _network_sort(xs, descending)[:k]
+            if KERNELS.get("sort_mode") == "axiom" and len(xs) <= 5:
+                v = _axiom_sort(xs, descending)[:k]
+            else:
+                v = _network_sort(xs, descending)[:k]
             return v, [0] * len(v)
         V, _ = _along(t, dim, f_net, out_len=k)
         I = _LazyIdx(lambda: _along(t, dim, f_fork, out_len=k)[1], V.shape)
@@ -696,8 +713,34 @@ class GramOnlyRead(Exception):
 
 
 class _GT:
+    """J.T of an opaque matrix: only J.T.T and J.T.T @ J.T (= J @ J.T) are answered"""
+
     def __init__(self, owner):
         self.owner = owner
+
+    @property
+    def T(self):
+        return self.owner
+
+    mT = T
+
+    def t(self):
+        return self.owner
+
+    @property
+    def shape(self):
+        return Size(reversed(self.owner.shape))
+
+    @property
+    def dtype(self):
+        return self.owner.dtype
+
+    @property
+    def device(self):
+        return self.owner.device
+
+    def __getattr__(self, name):
+        raise GramOnlyRead(f"J.T.{name}")
 
 
 class GramOnly(Tensor):
